@@ -3,14 +3,14 @@ from orchestrate.common import run_check
 
 def _ops(line):
     case = line.split("|")[0].split()
-    return [t for t in case if t[:2] in ("X/", "B/", "E/", "F/", "I/")]
+    return [t for t in case if t[:2] in ("X/", "B/", "E/", "F/", "I/", "Y/")]
 
 
 def _extra(lines, verdicts):
     """Histogram of what the histories contained (from the recorded exchanges)."""
     h = {"histories": len(lines), "ext": 0, "generic_server": 0, "client_calls": 0, "events": 0,
          "unprepared_answers": 0, "reprepares": 0, "id_changed": 0, "new_metadata_id_rows": 0,
-         "no_metadata_rows": 0, "batches": 0, "paged_calls": 0, "pager_calls": 0, "pager_pages": 0, "resends": 0,
+         "no_metadata_rows": 0, "batches": 0, "paged_calls": 0, "pager_calls": 0, "pager_pages": 0, "resends": 0, "concurrent_pairs": 0,
          "nodes": {}}
     for ln in lines:
         parts = ln.split("|")
@@ -25,6 +25,7 @@ def _extra(lines, verdicts):
         h["pager_calls"] += sum(o[0] == "I" for o in ops)
         h["pager_pages"] += sum(int(t[3:], 16) for t in obs.split() if t.startswith("OI/"))
         h["batches"] += sum(o[0] == "B" for o in ops)
+        h["concurrent_pairs"] += sum(o[0] == "Y" for o in ops)
         h["events"] += sum(o[0] == "E" for o in ops)
         h["paged_calls"] += sum(o[0] == "X" and o.split("/")[4] != "~" for o in ops)
         h["unprepared_answers"] += obs.count(">u:")
@@ -33,7 +34,36 @@ def _extra(lines, verdicts):
         h["new_metadata_id_rows"] += obs.count(">r:i")
         h["no_metadata_rows"] += obs.count(">r:n")
         h["resends"] += sum(1 for o in obs.split() if o.count(";x:") >= 1)
+    h["not_run_environment"] = sum(1 for v in verdicts if v and v.startswith("ok notrun="))
+    h["stale_writeback_observed"] = sum(1 for v in verdicts if v and "note=stale-writeback" in v)
     return {"history_content": h}
+
+
+def _post(lines, verdicts):
+    """Not-run cap and floors on what the tie really exercised (a floor that is missed is a broken
+    correspondence, not a violation)."""
+    out = []
+    n = len(lines)
+    notrun = [(l, v) for l, v in zip(lines, verdicts) if v and v.startswith("ok notrun=")]
+    if len(notrun) > max(3, n // 100):
+        out.append(("diff", notrun[0][0], f"{len(notrun)} of {n} histories could not be run (environment): e.g. {notrun[0][1]}"))
+    if n >= 500:
+        obs = " ".join(l.split("|", 1)[1] if "|" in l else "" for l in lines)
+        case = " ".join(l.split("|", 1)[0] for l in lines)
+        floors = {
+            "re-preparations": (obs.count(">P:"), n // 20),
+            "id changes": (obs.count("/e:idchanged"), n // 100),
+            "new-metadata-id answers": (obs.count(">r:i"), n // 100),
+            "NO_METADATA answers": (obs.count(">r:n"), n // 4),
+            "batch calls": (case.count(" B/"), n // 20),
+            "pager calls": (case.count(" I/"), n // 100),
+            "concurrent pairs": (case.count(" Y/"), n // 100),
+            "known-finding histories": (sum(1 for v in verdicts if v and "class=stale-cached-metadata-without-ext" in v), 1),
+        }
+        for what, (got, want) in floors.items():
+            if got < want:
+                out.append(("diff", lines[0], f"coverage floor missed: {got} {what}, expected at least {want}"))
+    return out
 
 
 SPEC = {
@@ -45,7 +75,7 @@ SPEC = {
     "runner_timeout": 3000,
     "rule": ("one case = one seeded history against a fresh mock cluster (1-3 nodes, with/without the metadata-id "
              "extension, 1-3 prepared statements with 2-4 schema versions each) and a real Session: 4-15 ops out of "
-             "execute / single-page execute / execute_iter (pager, 1-3 pages) / batch (random node, use_cached_result_metadata, consistency, serial "
+             "execute / single-page execute / execute_iter (pager, 1-3 pages) / batch / pairs of CONCURRENT executes on two nodes (random node, use_cached_result_metadata, consistency, serial "
              "consistency, timestamp, page size, paging state) and node events {evicted, schema-changed, prepared, "
              "id-changing}; a quarter of the histories additionally force arbitrary (ill-behaved) answers. "
              "non-trivial = the history contains at least one client call; distinct = distinct case lines"),
@@ -64,9 +94,11 @@ SPEC = {
         "C14_faithful premises: the metadata id determines the columns, ids are non-empty, distinct statements have "
         "distinct ids and texts; it is stated for calls outside the known-finding class F17 (no extension and "
         "use_cached_result_metadata on), for which C14_faithful_refuted gives the counterexample",
-        "the tie's callers are sequential; concurrency is covered by the theorems (all interleavings), not by the tie",
+        "concurrent callers in the tie: pairs of calls on different nodes sharing one PreparedStatement; the acceptor searches the interleavings of their client-side steps (g_par)",
     ],
     "extra_coverage": _extra,
+    "post": _post,
+    "min_cases": {"quick": 1100, "thorough": 28000},
 }
 
 
